@@ -1,15 +1,41 @@
 import GoImap.Model.Framing
 import GoImap.Spec.Framing
+import GoImap.Lemmas.FramingReply
+import GoImap.Lemmas.FramingBridge
 /-
   C04 — server command framing: literal payloads are never parsed as commands.
+  Statements about Model/Framing.lean (the mirror of the repaired server) for every configuration,
+  every state and EVERY octet stream, and about how its framing decisions relate to the RFC-side
+  definitions of Spec/Framing.lean (`litHeader`: the literal header recogniser of RFC 9051 §4.3 /
+  RFC 7888).
 
-  Proved here (about Model/Framing.lean, the mirror of the repaired server):
-    * accept_only_small        checkBufferedLiteral lets a literal through only when it is ≤ 4096 octets
-    * cont_only_when_accepting acceptLiteral writes "+" exactly when it accepts a synchronising literal
-    * legacy_*_counterexample  the behaviour before each repair, on the replay inputs of the findings
-                               ledger (F06 discarded-line payload executed)
-  Validated by the oracle on every run, not proved: clauses 1–4 of Spec/Framing.lean on the real
-  server's output (checklib/prop_C04.py).
+  Proved:
+    * one_reply_per_command      every command the server parses and runs gets exactly one tagged reply,
+                                 carrying its own tag; dropped_line_not_answered: a line without a usable
+                                 tag / name (the connection is dropped) gets none
+    * literal_header_agrees      whenever LiteralReader accepts, the octets it consumed are "{n}" / "{n+}"
+                                 at the end of the line for the RFC recogniser too, with the same size and
+                                 kind (n < 2^63); the only liberties are " CRLF" and a lone LF as line end
+    * discarded_header_detected  DiscardLine flags an unread non-synchronising literal exactly when the RFC
+                                 recogniser sees "{n+}" at the end of the discarded line
+    * unread_nonsync_closes      a command that leaves a non-synchronising literal unread (refused by the
+                                 4096 / APPEND / LITERAL+ checks, or skipped on a discarded line) puts the
+                                 connection into logout: BYE, and (logout_stops) not one more octet is read
+    * open_literal_blocks_text   while a literal is open (refused, payload not read) no primitive can
+                                 consume an octet as command text
+    * cont_only_when_accepting   acceptLiteral writes "+" exactly when it accepts a synchronising literal;
+                                 refused_literal_no_cont / refused_append_no_cont: a refused literal never
+                                 gets "+"
+    * accept_only_small          checkBufferedLiteral lets a literal through only when it is ≤ 4096 octets
+    * legacy_*_counterexample    the behaviour before each repair, on the replays of the findings ledger
+                                 (F06 payload of a discarded / refused literal executed, F50 refused
+                                 synchronising literal never answered, F51 APPEND never answered)
+  NOT proved (validated on every run by the oracle clauses 1–4 of Spec/Framing.lean on the real
+  server's transcripts, and by the model/implementation tie): the end-to-end simulation
+      tags (serve cfg inp) = tags (frame go inp)   and   roles (serve cfg inp) ⊑ roles (frame go inp)
+  for all streams of the oracle's domain. The lemmas above are its per-step content (where a line
+  ends, when a literal starts, what happens to an unread one); composing them over every handler
+  is not done. `whole_lines` (clause 4) is about the encoder, which is outside this model.
 -/
 namespace GoImap.C04
 open GoImap.Framing
@@ -31,11 +57,83 @@ theorem cont_only_when_accepting (cfg : Cfg) (n : Nat) (ns : Bool) (s : S) :
   · simp [S.emit]
   · right; simp only [Bool.true_and]; split <;> rfl
 
+/-- a literal refused by Decoder.Literal (over 4096 octets, or malformed) gets no "+" -/
+theorem refused_literal_no_cont (cfg : Cfg) (s s1 : S) (h : s.literal cfg = (none, s1)) (p : Nat)
+    (hp : Event.cont p ∈ s1.evs) : Event.cont p ∈ s.evs :=
+  Framing.refused_literal_no_cont cfg s s1 h p hp
+
+/-- a literal refused by acceptLiteral (APPEND: non-synchronising over 4096 without LITERAL+)
+    changes nothing: no "+", nothing consumed -/
+theorem refused_append_no_cont (cfg : Cfg) (n : Nat) (ns : Bool) (s : S) (e : Err) (s1 : S)
+    (h : acceptLiteral cfg n ns s = (some e, s1)) : s1 = s :=
+  Framing.refused_append_no_cont cfg n ns s e s1 h
+
+/-- Every command the server parses (tag and command name read) and runs to the end receives
+    exactly one tagged reply, carrying its own tag — in every configuration, from every state, on
+    every stream. -/
+theorem one_reply_per_command (cfg : Cfg) (hfix : cfg.fx.append = true) (s s1 : S)
+    (h : readCommand cfg s = (true, s1)) :
+    ∃ tag name s2 cls new,
+      cmdHeader s.reset = (some (tag, name), s2) ∧
+      s1.evs = new ++ s.evs ∧
+      new.filter isTagged = [Event.tagged tag cls] :=
+  one_reply cfg hfix s s1 h
+
+/-- a line the server cannot use as a command (and after which it drops the connection), or a
+    command outside the model's table, adds no tagged reply -/
+theorem dropped_line_not_answered (cfg : Cfg) (s s1 : S) (h : readCommand cfg s = (false, s1)) :
+    ∃ new, s1.evs = new ++ s.evs ∧ new.filter isTagged = [] :=
+  no_reply_when_dropped cfg s s1 h
+
+/-- Whenever the server's LiteralReader accepts, what it consumed is a literal header at the end
+    of the line for the RFC recogniser as well, announcing the same size and the same kind
+    (`pre` = whatever precedes it on the line). The line end it accepted is CRLF, or one of the
+    library's liberties: " CRLF", LF, " LF". -/
+theorem literal_header_agrees (fx : Fixes) (s s1 : S) (n : Nat) (ns : Bool)
+    (h : s.literalReader fx = (some (n, ns), s1)) :
+    ∃ (hdr : List Nat) (sp cr : Bool),
+      s.inp = hdr ++ (if sp then [32] else []) ++ (if cr then [13] else []) ++ [10] ++ s1.inp ∧
+      n < 9223372036854775808 ∧
+      ∀ pre, FramingSpec.litHeader (pre ++ hdr) = some (n, ns) := by
+  obtain ⟨ds, sp, cr, hne, hdig, hval, hlt, hinp⟩ := literalReader_consumed h
+  refine ⟨123 :: ds ++ (if ns then [43] else []) ++ [125], sp, cr, ?_, hlt, ?_⟩
+  · rw [hinp]
+  · intro pre
+    have := litHeader_of_header pre ds ns hne hdig
+    rw [hval] at this
+    simpa [List.append_assoc] using this
+
+/-- DiscardLine's test for a literal nobody is going to read is the RFC recogniser: the tail of
+    the discarded line ends in "{" 1*DIGIT "+}" exactly when `litHeader` says so. -/
+theorem discarded_header_detected (t : List Nat) :
+    nonSyncSuffix t = true ↔ ∃ n, FramingSpec.litHeader t = some (n, true) :=
+  nonSyncSuffix_iff_litHeader t
+
+/-- A command that leaves a non-synchronising literal unread ends with the connection in the
+    logout state (the tagged reply and BYE are written) … -/
+theorem unread_nonsync_closes (cfg : Cfg) (hfix : cfg.fx.close = true) (tag : List Nat) (bu : Bool)
+    (e : Option Err) (s : S) (h : (s.discardLine cfg.fx).unreadNonSync = true) :
+    (finishCommand cfg tag bu e s).st = .logout :=
+  Framing.unread_nonsync_closes cfg hfix tag bu e s h
+
+/-- … and in the logout state the loop reads nothing more: its next step is the epilogue. -/
+theorem logout_stops (cfg : Cfg) (fuel : Nat) (s : S) (h : s.st = .logout) :
+    serveLoop cfg (fuel + 1) s = s.emit .close :=
+  Framing.logout_stops cfg fuel s h
+
+/-- while a literal is open (its payload was refused and is not going to be read by this
+    command) nothing can be read as command text -/
+theorem open_literal_blocks_text (s : S) (h : s.lit.isSome = true) :
+    s.look.1 = none ∧ s.look.2.inp = s.inp ∧ s.look.2.pos = s.pos :=
+  Framing.open_literal_blocks_text s h
+
+/-! ### the behaviour before the repairs (Legacy), on the replay inputs -/
+
 /-- `d NOOP {12+}⏎e DELETE x⏎` in the authenticated state -/
 def discardedPayload : Framing.Bytes :=
   [100,32,78,79,79,80,32,123,49,50,43,125,13,10,101,32,68,69,76,69,84,69,32,120,13,10]
 
-/-- F06: before the repair the payload of the ignored literal was executed … -/
+/-- F06b: before the repair the payload of the ignored literal was executed … -/
 theorem legacy_discard_counterexample :
     Event.exec ⟨.delete, [[120]]⟩ ∈ Legacy.serve false true discardedPayload := by decide
 
@@ -43,5 +141,42 @@ theorem legacy_discard_counterexample :
 theorem discard_repaired :
     serve { plus := false, preauth := true } discardedPayload
       = [.tagged [100] .bad, .bye, .close] := by decide
+
+/-- `a APPEND m {104857601+}⏎b DELETE x⏎` in the authenticated state -/
+def refusedAppend : Framing.Bytes :=
+  [97,32,65,80,80,69,78,68,32,109,32,123,49,48,52,56,53,55,54,48,49,43,125,13,10,
+   98,32,68,69,76,69,84,69,32,120,13,10]
+
+/-- F06: the payload of a refused non-synchronising literal was executed -/
+theorem legacy_refused_counterexample :
+    Event.exec ⟨.delete, [[120]]⟩ ∈ Legacy.serve false true refusedAppend := by decide
+
+theorem refused_repaired :
+    serve { plus := false, preauth := true } refusedAppend
+      = [.appendLit 104857601 false, .tagged [97] .no, .bye, .close] := by decide
+
+/-- `a LOGIN {5000}⏎` -/
+def refusedSync : Framing.Bytes := [97,32,76,79,71,73,78,32,123,53,48,48,48,125,13,10]
+
+/-- F50: a refused synchronising literal was not answered: the handler went on to read an atom, so
+    the first thing that happens is `eof` (the server is blocked reading; what follows `eof` is what
+    it does once the client has gone) … -/
+theorem legacy_stall_counterexample :
+    (Legacy.serve false false refusedSync).head? = some .eof := by decide
+
+/-- … the repaired server answers NO at once and waits for the next command -/
+theorem stall_repaired :
+    serve { plus := false, preauth := false } refusedSync = [.tagged [97] .no, .eof, .close] := by decide
+
+/-- `a APPEND m {3}⏎abcXYZ⏎` in the authenticated state -/
+def appendTrailing : Framing.Bytes :=
+  [97,32,65,80,80,69,78,68,32,109,32,123,51,125,13,10,97,98,99,88,89,90,13,10]
+
+/-- F51: APPEND with text after its literal stored the message and was never answered -/
+theorem legacy_append_counterexample :
+    (Legacy.serve false true appendTrailing).filter isTagged = [] := by decide
+
+theorem append_repaired :
+    (serve { plus := false, preauth := true } appendTrailing).filter isTagged = [.tagged [97] .bad] := by decide
 
 end GoImap.C04
